@@ -938,6 +938,10 @@ func runCase(g *hc.Gen, o *hc.Out, pr *hc.Proc, rows [][]value.Primary, c caseSp
 		return
 	}
 
+	if c.witness == "" {
+		multiCheck(g, o, pr, rows, c, akind, cpu, got)
+	}
+
 	if c.witness == "rank_int_float_ties" {
 		// rows 0, 1, 2 tie under ORDER BY k1 (1, 1.0, 1): rank 1 each; row 3 (k1 = 2): rank 4
 		want := []int64{1, 1, 1, 4}
@@ -1207,6 +1211,148 @@ func firstLine(s string) string {
 		return s[:i]
 	}
 	return s
+}
+
+// orderRobust: the per-row value is the same whatever order the rows have when the function is
+// evaluated (inside a select list with several analytic functions the view has already been
+// re-ordered by the functions evaluated before) and however ties of its ORDER BY fall.
+func orderRobust(c caseSpec) bool {
+	if (c.fn == "ntile" || c.fn == "nth_value") && c.a1 != nil && *c.a1 < 1 {
+		return false
+	}
+	if c.uniqueOrder() {
+		return true
+	}
+	insensitive := c.fn == "count" || c.fn == "count_star"
+	switch c.fn {
+	case "agg:COUNT", "agg:SUM", "agg:MIN", "agg:MAX", "agg:AVG", "agg:MEDIAN", "agg:STDEV", "agg:STDEVP", "agg:VAR", "agg:VARP":
+		insensitive = true
+	}
+	whole := c.w.form == "none" || (c.w.form == "b" && c.w.lo.kind == "up" && c.w.hi.kind == "uf")
+	if len(c.items) == 0 {
+		return insensitive && whole
+	}
+	return tieSafe[c.fn] || (insensitive && whole)
+}
+
+func approxFn(c caseSpec) bool {
+	switch c.fn {
+	case "agg:STDEV", "agg:STDEVP", "agg:VAR", "agg:VARP":
+		return true
+	}
+	return false
+}
+
+// multiCheck: the function under test together with one or two other analytic functions in ONE select
+// list (sharing 0-1 PARTITION BY columns, other ORDER BY items) must give, per row id, the value each
+// function gives when it is the only analytic function of the query.  (csvq evaluates the functions of a
+// select list one after the other on the same view, each re-ordering it; state left behind by one —
+// cached sort values, row order — must not leak into the next.)
+func multiCheck(g *hc.Gen, o *hc.Out, pr *hc.Proc, rows [][]value.Primary, c caseSpec, akind, cpu int, got []*outRow) {
+	nrows := len(rows)
+	if nrows == 0 || !orderRobust(c) || g.Intn(5) < 2 {
+		return
+	}
+	type member struct {
+		c      caseSpec
+		single []value.Primary // per id
+	}
+	self := member{c: c, single: make([]value.Primary, nrows)}
+	for id := range got {
+		self.single[id] = got[id].r
+	}
+	members := []member{self}
+	nExtra := 1 + g.Intn(2)
+	shared := -1
+	for len(members) < 1+nExtra {
+		var e caseSpec
+		ok := false
+		for try := 0; try < 30 && !ok; try++ {
+			e = genCase(g, nrows, akind)
+			ok = orderRobust(e)
+		}
+		if !ok {
+			return
+		}
+		// share a PARTITION BY column with the function under test in two cases of three
+		if len(c.pcols) > 0 && g.Intn(3) != 0 {
+			shared = c.pcols[g.Intn(len(c.pcols))]
+			switch g.Intn(3) {
+			case 0:
+				e.pcols = []int{shared}
+			case 1:
+				e.pcols = []int{shared, cP1 + cP2 - shared}
+			default:
+				e.pcols = []int{cP1 + cP2 - shared, shared}
+			}
+		}
+		v, err := safeQuery(pr, "SELECT id, "+e.callSQL()+" AS r FROM t")
+		if err != nil || v.RecordLen() != nrows {
+			continue // the single-function behaviour of this one is not this check's business
+		}
+		m := member{c: e, single: make([]value.Primary, nrows)}
+		good := true
+		for i := 0; i < v.RecordLen(); i++ {
+			id := intCell(hc.ViewCell(v, i, 0))
+			if id < 0 || id >= nrows || m.single[id] != nil {
+				good = false
+				break
+			}
+			m.single[id] = hc.ViewCell(v, i, 1)
+		}
+		if !good {
+			continue
+		}
+		members = append(members, m)
+	}
+	// the function under test at a random position of the select list
+	perm := g.Perm(len(members))
+	colSQL := make([]string, len(members))
+	for k, mi := range perm {
+		colSQL[k] = members[mi].c.callSQL() + fmt.Sprintf(" AS r%d", k+1)
+	}
+	sql := "SELECT id, " + strings.Join(colSQL, ", ") + " FROM t"
+	o.Count(fmt.Sprintf("multi:%d functions", len(members)))
+	names := make([]string, len(members))
+	for k, mi := range perm {
+		names[k] = members[mi].c.fn
+	}
+	o.NonTrivial(fmt.Sprintf("multi|%s|shared=%v|rows<=%d", strings.Join(names, "+"), shared >= 0, sizeBand(nrows)))
+	replay := func(extra map[string]interface{}) map[string]interface{} {
+		m := map[string]interface{}{"sql": sql, "table": tableText(rows), "cpu": cpu}
+		for k, v := range extra {
+			m[k] = v
+		}
+		return m
+	}
+	v, err := safeQuery(pr, sql)
+	if err != nil {
+		lawCap(o, "analytic:multi_function_inconsistent", replay(map[string]interface{}{"error": firstLine(err.Error()), "note": "every function of the list runs alone without error"}))
+		return
+	}
+	if v.RecordLen() != nrows {
+		lawCap(o, "analytic:multi_function_inconsistent", replay(map[string]interface{}{"rows": nrows, "out": v.RecordLen()}))
+		return
+	}
+	seen := make([]bool, nrows)
+	for i := 0; i < v.RecordLen(); i++ {
+		id := intCell(hc.ViewCell(v, i, 0))
+		if id < 0 || id >= nrows || seen[id] {
+			lawCap(o, "analytic:multi_function_inconsistent", replay(map[string]interface{}{"duplicate_or_unknown_id": id}))
+			return
+		}
+		seen[id] = true
+		for k, mi := range perm {
+			cell := hc.ViewCell(v, i, 1+k)
+			if !sameValue(cell, members[mi].single[id], approxFn(members[mi].c)) {
+				lawCap(o, "analytic:multi_function_inconsistent", replay(map[string]interface{}{
+					"id": id, "column": fmt.Sprintf("r%d", k+1), "function": members[mi].c.callSQL(),
+					"in_combined_query": hc.EncVal(cell), "alone": hc.EncVal(members[mi].single[id]),
+					"single_sql": "SELECT id, " + members[mi].c.callSQL() + " AS r FROM t"}))
+				return
+			}
+		}
+	}
 }
 
 func intCell(p value.Primary) int {
